@@ -159,6 +159,7 @@ func c19(args []string) error {
 				switch qn {
 				case "fasta.WriteAlignment":
 					_ = fasta.WriteAlignment(a)
+					_ = fasta.WriteSequences(a) // the gap-dropping writer
 				case "phylip.WriteAlignment":
 					_ = phylip.WriteAlignment(a, false, false, false)
 					_ = phylip.WriteAlignment(a, true, true, true)
